@@ -172,7 +172,7 @@ def _target(op, spec):
         return ".".join(path), (t if f is not None and f["k"] not in ("Schema", "CType") else None)
     if op[0] == "cmdline":
         return (op[2], op[3]) if len(op) > 3 else None
-    if op[0] in ("mut", "reset", "setcfg", "from-sibling"):
+    if op[0] in ("mut", "reset", "setcfg", "from-sibling", "selfset", "augset"):
         return op[1], None
     if op[0] == "itemset":
         return op[1], None
